@@ -64,6 +64,15 @@ fn new_world() -> World {
     w
 }
 
+/// derived bundles: the macro's generated `fetch` is a code path of its own
+#[derive(shred::SystemData)]
+pub struct Dz<'a> {
+    a: Write<'a, Cell0>,
+    b: Read<'a, Cell1>,
+}
+#[derive(shred::SystemData)]
+pub struct Dt<'a>(Read<'a, Cell0>, Option<Write<'a, CellX>>, Write<'a, Cell1>);
+
 pub enum G<'a> {
     R0(Fetch<'a, Cell0>),
     W0(FetchMut<'a, Cell0>),
@@ -72,6 +81,8 @@ pub enum G<'a> {
     Sd0((Read<'a, Cell0>, Write<'a, Cell1>)),
     Sd1((Option<Read<'a, CellX>>, Read<'a, Cell1>)),
     Sd2((Option<Write<'a, Cell0>>, Option<Read<'a, Cell1>>)),
+    Sd4(Dz<'a>),
+    Sd5(Dt<'a>),
     Mr(AtomicRef<'a, dyn Tagged + 'static>),
     Mw(AtomicRefMut<'a, dyn Tagged + 'static>),
     /// a live meta-table iterator: holds no borrow itself, every `next` yields a guard of its own
@@ -98,6 +109,8 @@ pub enum Op8 {
     Drop(u8),
     /// acquire (op index into `acquire_ops`) inside a closure that then panics
     AcquireThenPanic(u8),
+    /// acquire from a destructor that runs while the thread is unwinding from another panic
+    AcquireDuringUnwind(u8),
 }
 
 /// holdings of a guard: (key, exclusive?)
@@ -189,6 +202,8 @@ fn members(op: Op8) -> Option<(Vec<(u8, bool, bool)>, bool)> {
         Op8::SysData(0) => (vec![(0, false, false), (1, true, false)], false),
         Op8::SysData(1) => (vec![(3, false, true), (1, false, false)], false),
         Op8::SysData(2) => (vec![(0, true, true), (1, false, true)], false),
+        Op8::SysData(4) => (vec![(0, true, false), (1, false, false)], false),
+        Op8::SysData(5) => (vec![(0, false, false), (3, true, true), (1, true, false)], false),
         Op8::SysData(_) => (vec![(0, true, false), (0, false, false)], false),
         Op8::MetaIterNext => (vec![(0, false, false)], false),
         Op8::MetaIterMutNext => (vec![(0, true, false)], false),
@@ -256,6 +271,8 @@ fn acquire_real<'a>(w: &'a World, meta: &'a MetaTable<dyn Tagged>, op: Op8) -> R
         Op8::SysData(0) => Some(G::Sd0(w.system_data())),
         Op8::SysData(1) => Some(G::Sd1(w.system_data())),
         Op8::SysData(2) => Some(G::Sd2(w.system_data())),
+        Op8::SysData(4) => Some(G::Sd4(w.system_data())),
+        Op8::SysData(5) => Some(G::Sd5(w.system_data())),
         Op8::SysData(_) => {
             let _d: (Write<Cell0>, Read<Cell0>) = w.system_data();
             return Err("self-conflicting system data was fetched".into());
@@ -305,6 +322,8 @@ fn touch(g: &mut G, hold: &Hold, m: &mut Model) -> Result<(), String> {
                         x.0 = c
                     }
                 }
+                (G::Sd4(d), 0) => d.a.0 = c,
+                (G::Sd5(d), 1) => d.2 .0 = c,
                 (G::Mw(x), _) => x.set(c),
                 _ => return Err("model says exclusive member but the guard has none".into()),
             }
@@ -337,6 +356,17 @@ fn touch(g: &mut G, hold: &Hold, m: &mut Model) -> Result<(), String> {
                 return Err("Option<Read<present>> is None".into());
             }
         }
+        G::Sd4(d) => {
+            vals.push(d.a.0);
+            vals.push(d.b.0);
+        }
+        G::Sd5(d) => {
+            vals.push(d.0 .0);
+            if d.1.is_some() {
+                return Err("Option<Write<absent>> is Some".into());
+            }
+            vals.push(d.2 .0);
+        }
         G::Mr(x) => vals.push(x.get()),
         G::Mw(x) => vals.push(x.get()),
         G::It(_) | G::ItMut(_) => {}
@@ -364,7 +394,7 @@ pub fn acquire_ops() -> Vec<Op8> {
         v.push(Op8::TryFetchById(k));
         v.push(Op8::TryFetchMutById(k));
     }
-    for i in 0..4u8 {
+    for i in 0..6u8 {
         v.push(Op8::SysData(i));
     }
     v.push(Op8::MetaIterNext);
@@ -383,6 +413,9 @@ pub fn alphabet(max_guards: usize) -> Vec<Op8> {
     }
     for (i, _) in acquire_ops().iter().enumerate() {
         v.push(Op8::AcquireThenPanic(i as u8));
+    }
+    for (i, _) in acquire_ops().iter().enumerate() {
+        v.push(Op8::AcquireDuringUnwind(i as u8));
     }
     v
 }
@@ -501,6 +534,48 @@ pub fn run_history(h: &[Op8], max_guards: usize) -> Result<Option<Vec<u8>>, Fail
                 let got = if msg == "C08-INNER-GOT" { Cls::Guard } else if msg == "C08-INNER-NONE" { Cls::None } else { Cls::Panic };
                 if got != cls {
                     return Err(fail("outcome-differs-from-borrow-model", format!("{:?} (then panic) gave {:?}, the borrow model says {:?}", aop, got, cls)));
+                }
+            }
+            Op8::AcquireDuringUnwind(a) => {
+                let aop = acq[a as usize];
+                let (mem, whole_opt) = members(aop).unwrap();
+                let (cls, hd) = m.acquire(&mem, whole_opt);
+                m.give(&hd); // the guard is dropped inside the destructor
+                struct OnDrop<F: FnMut()>(F);
+                impl<F: FnMut()> Drop for OnDrop<F> {
+                    fn drop(&mut self) {
+                        (self.0)()
+                    }
+                }
+                let mut got: Option<Result<Cls, String>> = None;
+                let _ = catch_unwind(AssertUnwindSafe(|| {
+                    let _g = OnDrop(|| {
+                        debug_assert!(std::thread::panicking());
+                        got = Some(match catch_unwind(AssertUnwindSafe(|| acquire_real(&world, &meta, aop))) {
+                            Ok(Ok(Some(g))) => {
+                                drop(g);
+                                Ok(Cls::Guard)
+                            }
+                            Ok(Ok(None)) => Ok(Cls::None),
+                            Ok(Err(e)) => Err(e),
+                            Err(_) => Ok(Cls::Panic),
+                        });
+                    });
+                    panic!("C08-OUTER");
+                }));
+                match got {
+                    Some(Ok(g)) if g == cls => {}
+                    Some(Ok(g)) => {
+                        let sig = match (g, cls) {
+                            (Cls::Guard, Cls::Panic) => "aliasing-guard-returned",
+                            (Cls::None, Cls::Panic) => "conflict-returns-none-instead-of-panic",
+                            (Cls::Panic, _) => "unexpected-panic",
+                            _ => "outcome-differs-from-borrow-model",
+                        };
+                        return Err(fail(sig, format!("{:?} issued from a destructor while the thread was unwinding gave {:?}, the borrow model says {:?}", aop, g, cls)));
+                    }
+                    Some(Err(e)) => return Err(fail("absent-resource-yields-guard", e)),
+                    None => return Err(fail("harness", "destructor did not run".into())),
                 }
             }
             aop => {
